@@ -70,6 +70,38 @@ def install(E):
         return Slice(Ptr.to(oid), bv(0), bv(n), bv(n))
     I[ZV + "Int64s"] = v_int64s
 
+    def havoc_val(E, t, name):
+        if t.kind == "named" and t.name == "time.Time":
+            return E.mk_time_ns(E.new_input(name, "int64", BV64))
+        u = t.under()
+        k = u.kind
+        if k == "int":
+            return E.new_input(name, "int", z3.BitVecSort(u.d["bits"]))
+        if k == "bool":
+            return E.new_input(name, "bool", z3.BoolSort())
+        if k == "float":
+            return E.new_input(name, "float64", F64)
+        if k == "struct":
+            return SV([havoc_val(E, E.prog.type(f["type"]), name + "." + f["name"]) for f in u.d["fields"]])
+        if k == "array":
+            et = E.prog.type(u.d["elem"])
+            n = u.d["len"]
+            bits = E.int_elem_bits(et)
+            if bits is not None:
+                arr = E.new_input(name, "ints", z3.ArraySort(BV64, z3.BitVecSort(bits)), n=n)
+                return ZA(arr, n)
+            return AV([havoc_val(E, et, "%s[%d]" % (name, i)) for i in range(n)])
+        return E.zero(t)
+
+    def v_havoc(E, name, args, ins):
+        nm = args[0].py
+        ifc = args[1]
+        (c, tid, ptr), = [a for a in ifc.alts if a[1] is not None]
+        t = E.prog.type(tid).elem()
+        E.store(ptr, havoc_val(E, t, nm))
+        return None
+    I[ZV + "Havoc"] = v_havoc
+
     def v_string(E, name, args, ins):
         nm = E.input_name(args[0].py)
         t = z3.Const(nm, StrSort)
@@ -538,3 +570,42 @@ def install(E):
     I["sync/atomic.StoreInt32"] = atomic_store
     I["sync/atomic.LoadUint32"] = lambda E, name, args, ins: E.load(args[0])
     doc("sync/atomic.*", "plain read/compare/write on the sequential ghost state")
+
+    # sync/atomic.Value: an interface cell keyed by the address of the Value
+    def av_key(p):
+        t = p.single()
+        if t is None:
+            raise Exception("atomic.Value at non-concrete address")
+        return ("atomicval", t.obj, t.path)
+
+    def av_load(E, name, args, ins):
+        return E.ghost.get(av_key(args[0]), Iface.nil())
+
+    def av_store(E, name, args, ins):
+        k = av_key(args[0])
+        E.ghost[k] = ite(E.guard, args[1], E.ghost.get(k, Iface.nil()))
+        return None
+
+    def av_cas(E, name, args, ins):
+        k = av_key(args[0])
+        cur = E.ghost.get(k, Iface.nil())
+        same = eq(cur, args[1])
+        E.ghost[k] = ite(And(E.guard, same), args[2], cur)
+        return same
+    I["(*sync/atomic.Value).Load"] = av_load
+    I["(*sync/atomic.Value).Store"] = av_store
+    I["(*sync/atomic.Value).CompareAndSwap"] = av_cas
+
+    def opaque_fill(E, t, tag):
+        u = t.under()
+        if u.kind == "iface":
+            return Iface(((TRUE, "$opaque", Opaque(tag)),))
+        if u.kind == "ptr":
+            return Ptr.to(E.alloc(None, Opaque(tag), name="opaque:" + tag))
+        if u.kind == "struct":
+            return SV([opaque_fill(E, E.prog.type(f["type"]), tag + "." + f["name"]) for f in u.d["fields"]])
+        return E.zero(t)
+    E.opaque_fill = lambda t, tag: opaque_fill(E, t, tag)
+    gi = E.cfg.setdefault("global_init", {})
+    for g in E.cfg.get("opaque_globals", []):
+        gi[g] = (lambda g: lambda E, t: opaque_fill(E, t, g))(g)
